@@ -7,7 +7,12 @@
 (*   WriteHeader, SerializeBlocks (sizes known: regular blocks from their buffers, pixel    *)
 (*   and histogram blocks *computed* from the shapes), WriteBAT (fixed order, positions     *)
 (*   patched), WriteBlock(i) for each block, the pixel block in chunks (PixChunk).          *)
-(* The file is modelled by the sequence of writes <<tag, position, length>> and its length. *)
+(* The file is modelled by the sequence of writes <<tag, position, length>>, the write        *)
+(* position and the length of the file at the target.  The target may hold something before  *)
+(* the first create() (Prev: an earlier, shorter or longer file at the same path) and         *)
+(* create() may be called again on the same builder (MaxGen = 2): every file produced must    *)
+(* satisfy the layout properties, nothing of the earlier content may survive and the second   *)
+(* file lists the blocks of ALL calls again.                                                   *)
 (* Regular block sizes are a model parameter (RegSize): the layout properties hold for any. *)
 EXTENDS SqwBuilderDefs
 
@@ -15,43 +20,74 @@ CONSTANTS NPix,      \* set of pixel counts
           Chunks,    \* set of chunk sizes
           Shapes,    \* set of histogram shapes (sequences of extents)
           RegSize,   \* function: regular block name -> size in bytes
-          Bug        \* "none" | "rows" | "callorder" | "nopatch"   (negative controls)
+          ByteOrders,\* set of byte orders create() is asked for
+          Prev,      \* set of lengths of what exists at the target before create() (0 = nothing)
+          MaxGen,    \* how often create() may be called on one builder (1 or 2)
+          Bug        \* "none" | "rows" | "callorder" | "nopatch" | "notrunc" | "release"   (negative controls)
 
-VARIABLES reg,      \* set of items registered so far
+VARIABLES reg,      \* set of items registered so far (history of the public calls)
+          held,     \* set of items whose data the builder holds (what create() serialises)
           order,    \* the builder calls in the order they were made (history)
           npix, shape, chunk, bo,
+          prev,     \* length of the content found at the target by the first create()
+          gen,      \* number of create() calls made so far
           phase,    \* "build" | "header" | "serialize" | "bat" | "blocks" | "pix" | "done"
           blocks,   \* sequence of [name, kind, size] in table order (after SerializeBlocks)
           bat,      \* sequence of [name, kind, pos, size]       (after WriteBAT)
           cur,      \* index of the block being written
           pixoff, pixrem,   \* pixel loop: offset and remaining pixel count
-          writes,   \* sequence of <<tag, pos, len>>
-          flen      \* file length
+          writes,   \* sequence of <<tag, pos, len>> of the current create()
+          flen,     \* write position = number of bytes written by the current create()
+          fsize     \* length of the file at the target (what a reader finds)
 
-vars == <<reg, order, npix, shape, chunk, bo, phase, blocks, bat, cur, pixoff, pixrem, writes, flen>>
+callvars == <<reg, order, npix, shape>>
+argvars  == <<chunk, bo, prev, gen>>
+tabvars  == <<blocks, bat>>
+loopvars == <<pixoff, pixrem>>
+vars == <<reg, held, order, npix, shape, chunk, bo, prev, gen, phase, blocks, bat, cur, pixoff, pixrem,
+          writes, flen, fsize>>
 
+Max(a, b) == IF a > b THEN a ELSE b
+
+(* a write at the current position; the file grows only when the position passes its end *)
 Write(tag, n) == /\ writes' = Append(writes, <<tag, flen, n>>)
                  /\ flen' = flen + n
+                 /\ fsize' = Max(fsize, flen + n)
 
-Init == /\ reg = {} /\ order = <<>> /\ npix = 0 /\ shape = <<>> /\ chunk = 0 /\ bo = "little"
+Init == /\ reg = {} /\ held = {} /\ order = <<>> /\ npix = 0 /\ shape = <<>> /\ chunk = 0 /\ bo = "little"
+        /\ prev = 0 /\ gen = 0
         /\ phase = "build" /\ blocks = <<>> /\ bat = <<>> /\ cur = 0 /\ pixoff = 0 /\ pixrem = 0
-        /\ writes = <<>> /\ flen = 0
+        /\ writes = <<>> /\ flen = 0 /\ fsize = 0
 
 Call(it) == /\ phase = "build" /\ it \notin reg
-            /\ reg' = reg \cup {it} /\ order' = Append(order, it)
+            /\ reg' = reg \cup {it} /\ held' = held \cup {it} /\ order' = Append(order, it)
 
 AddPixelData(n) == /\ Call("pix") /\ npix' = n
-                   /\ UNCHANGED <<shape, chunk, bo, phase, blocks, bat, cur, pixoff, pixrem, writes, flen>>
+                   /\ UNCHANGED <<shape, argvars, phase, tabvars, cur, loopvars, writes, flen, fsize>>
 AddEmptyDndData(sh) == /\ Call("dnd") /\ shape' = sh
-                       /\ UNCHANGED <<npix, chunk, bo, phase, blocks, bat, cur, pixoff, pixrem, writes, flen>>
+                       /\ UNCHANGED <<npix, argvars, phase, tabvars, cur, loopvars, writes, flen, fsize>>
 AddSimple(it) == /\ it \in {"det", "inst", "samp"} /\ Call(it)
-                 /\ UNCHANGED <<npix, shape, chunk, bo, phase, blocks, bat, cur, pixoff, pixrem, writes, flen>>
+                 /\ UNCHANGED <<npix, shape, argvars, phase, tabvars, cur, loopvars, writes, flen, fsize>>
 
-Create(c, b) == /\ phase = "build" /\ phase' = "header" /\ chunk' = c /\ bo' = b
-                /\ UNCHANGED <<reg, order, npix, shape, blocks, bat, cur, pixoff, pixrem, writes, flen>>
+(* create(): the target is opened for writing, which discards whatever it held (the negative    *)
+(* control keeps it)                                                                             *)
+Opened(existing) == IF Bug = "notrunc" THEN existing ELSE 0
+
+Create(c, b, pv) == /\ phase = "build" /\ gen = 0
+                    /\ phase' = "header" /\ chunk' = c /\ bo' = b /\ prev' = pv /\ gen' = 1
+                    /\ fsize' = Opened(pv)
+                    /\ UNCHANGED <<callvars, held, tabvars, cur, loopvars, writes, flen>>
+
+(* create() once more on the same builder: the target now holds the file of the previous call *)
+CreateAgain == /\ phase = "done" /\ gen < MaxGen
+               /\ phase' = "header" /\ gen' = gen + 1
+               /\ fsize' = Opened(fsize)
+               /\ writes' = <<>> /\ flen' = 0 /\ blocks' = <<>> /\ bat' = <<>> /\ cur' = 0
+               /\ pixoff' = 0 /\ pixrem' = 0
+               /\ UNCHANGED <<callvars, held, chunk, bo, prev>>
 
 WriteHeader == /\ phase = "header" /\ Write("header", HeaderLen) /\ phase' = "serialize"
-               /\ UNCHANGED <<reg, order, npix, shape, chunk, bo, blocks, bat, cur, pixoff, pixrem>>
+               /\ UNCHANGED <<callvars, held, argvars, tabvars, cur, loopvars>>
 
 SizeOf(name) == CASE Kind(name) = "pix" -> PixSize(npix)
                   [] Kind(name) = "dnd" -> DndSize(shape)
@@ -66,14 +102,15 @@ CallBlocks(it) == CASE it = "pix"  -> <<ExpData, PixMeta, PixData>>
 RECURSIVE InCallOrder(_)
 InCallOrder(o) == IF o = <<>> THEN <<>> ELSE CallBlocks(Head(o)) \o InCallOrder(Tail(o))
 
+(* the table lists what the builder holds *)
 TableOrder == IF Bug = "callorder" THEN <<MainHeader>> \o InCallOrder(order)
-              ELSE SelectSeq(Canon, LAMBDA n : n \in ExpectedNames(reg))
+              ELSE SelectSeq(Canon, LAMBDA n : n \in ExpectedNames(held))
 
 SerializeBlocks ==
     /\ phase = "serialize" /\ phase' = "bat"
     /\ blocks' = [i \in 1..Len(TableOrder) |->
                     [name |-> TableOrder[i], kind |-> Kind(TableOrder[i]), size |-> SizeOf(TableOrder[i])]]
-    /\ UNCHANGED <<reg, order, npix, shape, chunk, bo, bat, cur, pixoff, pixrem, writes, flen>>
+    /\ UNCHANGED <<callvars, held, argvars, bat, cur, loopvars, writes, flen, fsize>>
 
 WriteBAT ==
     /\ phase = "bat" /\ phase' = "blocks" /\ cur' = 1
@@ -84,13 +121,13 @@ WriteBAT ==
        IN /\ bat' = [i \in 1..Len(blocks) |->
                         [name |-> blocks[i].name, kind |-> blocks[i].kind, pos |-> pos[i], size |-> blocks[i].size]]
           /\ Write("bat", BatLen(names))
-    /\ UNCHANGED <<reg, order, npix, shape, chunk, bo, blocks, pixoff, pixrem>>
+    /\ UNCHANGED <<callvars, held, argvars, blocks, loopvars>>
 
 NextBlock == IF cur = Len(bat) THEN phase' = "done" /\ cur' = cur ELSE phase' = "blocks" /\ cur' = cur + 1
 
 WriteRegular == /\ phase = "blocks" /\ cur <= Len(bat) /\ bat[cur].kind = "regular"
                 /\ Write("regular", bat[cur].size) /\ NextBlock
-                /\ UNCHANGED <<reg, order, npix, shape, chunk, bo, blocks, bat, pixoff, pixrem>>
+                /\ UNCHANGED <<callvars, held, argvars, tabvars, loopvars>>
 
 (* histogram: rank and extents, then values, errors (f64) and counts (u64), all zero *)
 WriteDnd == /\ phase = "blocks" /\ cur <= Len(bat) /\ bat[cur].kind = "dnd"
@@ -99,13 +136,14 @@ WriteDnd == /\ phase = "blocks" /\ cur <= Len(bat) /\ bat[cur].kind = "dnd"
                                        <<"dndarr", flen + 4 + 4 * Len(shape) + 8 * Prod(shape), 8 * Prod(shape)>>,
                                        <<"dndarr", flen + 4 + 4 * Len(shape) + 16 * Prod(shape), 8 * Prod(shape)>> >>
             /\ flen' = flen + 4 + 4 * Len(shape) + 24 * Prod(shape)
+            /\ fsize' = Max(fsize, flen + 4 + 4 * Len(shape) + 24 * Prod(shape))
             /\ NextBlock
-            /\ UNCHANGED <<reg, order, npix, shape, chunk, bo, blocks, bat, pixoff, pixrem>>
+            /\ UNCHANGED <<callvars, held, argvars, tabvars, loopvars>>
 
 (* pixel block: u32 row count, u64 pixel count, then the chunk loop *)
 WritePixHead == /\ phase = "blocks" /\ cur <= Len(bat) /\ bat[cur].kind = "pix"
                 /\ Write("pixhead", 4 + 8) /\ phase' = "pix" /\ pixoff' = 0 /\ pixrem' = npix
-                /\ UNCHANGED <<reg, order, npix, shape, chunk, bo, blocks, bat, cur>>
+                /\ UNCHANGED <<callvars, held, argvars, tabvars, cur>>
 
 (* the loop runs over the PIXELS in steps of `chunk`; the negative control bounds it by the  *)
 (* number of rows instead                                                                     *)
@@ -115,16 +153,19 @@ PixChunk == /\ phase = "pix" /\ pixoff < LoopBound
             /\ LET n == Min(chunk, pixrem)
                IN /\ Write("pixchunk", NRows * 4 * n) /\ pixrem' = pixrem - n
             /\ pixoff' = pixoff + chunk
-            /\ UNCHANGED <<reg, order, npix, shape, chunk, bo, phase, blocks, bat, cur>>
+            /\ UNCHANGED <<callvars, held, argvars, phase, tabvars, cur>>
 
+(* writing the file does not use up the builder (the negative control lets go of the pixels) *)
 PixDone == /\ phase = "pix" /\ pixoff >= LoopBound
            /\ NextBlock
-           /\ UNCHANGED <<reg, order, npix, shape, chunk, bo, blocks, bat, pixoff, pixrem, writes, flen>>
+           /\ held' = IF Bug = "release" THEN held \ {"pix"} ELSE held
+           /\ UNCHANGED <<callvars, argvars, tabvars, loopvars, writes, flen, fsize>>
 
 Next == \/ \E n \in NPix : AddPixelData(n)
         \/ \E sh \in Shapes : AddEmptyDndData(sh)
         \/ \E it \in {"det", "inst", "samp"} : AddSimple(it)
-        \/ \E c \in Chunks, b \in {"little", "big"} : Create(c, b)
+        \/ \E c \in Chunks, b \in ByteOrders, pv \in Prev : Create(c, b, pv)
+        \/ CreateAgain
         \/ WriteHeader \/ SerializeBlocks \/ WriteBAT
         \/ WriteRegular \/ WriteDnd \/ WritePixHead \/ PixChunk \/ PixDone
 
@@ -135,8 +176,8 @@ Spec == Init /\ [][Next]_vars
 Extents == [i \in 1..Len(bat) |-> <<bat[i].pos, bat[i].size>>]
 BatEnd == HeaderLen + BatLen([i \in 1..Len(bat) |-> bat[i].name])
 
-TypeOK == /\ reg \subseteq Items /\ Range(order) = reg /\ NoDup(order)
-          /\ flen >= 0 /\ pixrem >= 0
+TypeOK == /\ reg \subseteq Items /\ held \subseteq reg /\ Range(order) = reg /\ NoDup(order)
+          /\ flen >= 0 /\ pixrem >= 0 /\ fsize >= 0 /\ gen \in 0..MaxGen
 
 (* the file begins with the header *)
 HeaderFirst == writes # <<>> => writes[1] = <<"header", 0, HeaderLen>>
@@ -149,8 +190,13 @@ Sequential == /\ \A i \in 1..(Len(writes) - 1) : writes[i+1][2] = writes[i][2] +
 BlockAtDeclaredPosition ==
     (phase = "blocks" /\ cur <= Len(bat)) => flen = bat[cur].pos
 
-(* the declared extents tile the file from the end of the table to end-of-file *)
-Tiling == phase = "done" => Tiles(Extents, BatEnd, flen)
+(* the declared extents tile the file from the end of the table to end-of-file (the length a   *)
+(* reader finds, not merely the last position written)                                        *)
+Tiling == phase = "done" => Tiles(Extents, BatEnd, fsize)
+
+(* nothing of what the target held before survives: the file ends where the last write ended, *)
+(* whatever was there before and however often create() is called                              *)
+NothingSurvives == phase = "done" => fsize = flen
 
 (* each block of every registered call exactly once, nothing else *)
 EachBlockOnce == phase \in {"blocks", "pix", "done"} =>
